@@ -43,7 +43,8 @@
 //! Keys: `C06:<Type[::Variant]>:<format>:<class>`, class ∈ {panic, ser-error, de-error,
 //! value, bytes, leaf-rejected, leaf-not-preserved}; `C06:Upgrade:<class>` for E. A failing
 //! transaction / ConsensusParameters value whose Policies / GasCostsValues component fails
-//! alone in the same format is reported under the component's key (one defect ⇒ few keys).
+//! alone in the same format is reported under the component's key, and any failure while a
+//! three-byte `Bytes` probe fails alone in that format under `C06:Bytes:…` (one defect ⇒ few keys).
 
 #[path = "../txcorpus.rs"]
 mod txcorpus;
@@ -317,7 +318,7 @@ where
     let (fails, pc) = rt_all(v, acc);
     let ok = fails.is_empty();
     for e in fails {
-        let owner = component(e.fmt).unwrap_or_else(|| name.to_string());
+        let owner = component(e.fmt).or_else(|| shared_component(e.fmt)).unwrap_or_else(|| name.to_string());
         acc.viol(format!("C06:{owner}:{}:{}", e.fmt.name(), e.class), e.what, case);
     }
     if ok {
@@ -328,6 +329,13 @@ where
     } else {
         None
     }
+}
+
+/// A building block shared by almost every type (the byte-string wrapper): if a tiny
+/// probe value of it fails alone in `f`, the failure is reported under its name.
+fn shared_component(f: Fmt) -> Option<String> {
+    let probe = fuel_types::bytes::Bytes::new(vec![0x87, 0x01, 0xfe]);
+    rt_one(&probe, f).err().map(|_| "Bytes".to_string())
 }
 
 fn no_component(_: Fmt) -> Option<String> {
